@@ -421,7 +421,7 @@ func (a *ackTracker) OnAckSent(s *rc.ReplStream, offset int64) {
 		a.acked[s.Follower]++
 	}
 }
-func (*ackTracker) OnAckDelivered(*rc.ReplStream, int64)     {}
+func (*ackTracker) OnAckDelivered(*rc.ReplStream, int64)       {}
 func (*ackTracker) OnAppendSent(*rc.ReplStream, *proto.Append) {}
 
 func readAll(lc server.LeaderController, gets []*proto.GetRequest) ([]*proto.GetResponse, error) {
@@ -517,7 +517,11 @@ func runC08Qat(tier string, seed uint64, idx int) core.Result {
 				f.acker.Ack(o)
 				dups++
 				trace = append(trace, fmt.Sprintf("dup(f%d,%d)", fi, o))
-			} else if f.next <= head {
+			} else if f.next <= head || (f.next == head+1 && rng.IntN(3) == 0) {
+				// (an ack may arrive before the leader's own sync callback has advanced the head to that offset)
+				if f.next > head {
+					r.Count("acks_ahead_of_head", 1)
+				}
 				f.acker.Ack(f.next)
 				f.acked = f.next
 				f.next++
